@@ -88,7 +88,24 @@ fn entry_strategy(ctx: &Ctx) -> BoxedStrategy<Entry> {
             }
             Entry::Model { version, stack, runtime, lods, decl, material, flags }
         });
-    prop_oneof![5 => standard, 3 => texture, 3 => model].boxed()
+    // entries of thousands of tiny blocks: their block tables (8, 2 and 2 bytes per block) are longer than any buffer a reader
+    // is likely to read them through (4 KiB, 8 KiB, 64 KiB), the counts sit around those sizes
+    let tiny = |n: usize| vec((1u16..=40, mode(), 0u8..5), n);
+    let many_standard = prop::sample::select(vec![510usize, 1020, 1021, 1024, 2047, 8200]).prop_flat_map(move |n| tiny(n)).prop_map(|blocks| {
+        let gaps = vec![0u8; blocks.len()];
+        Entry::Standard { blocks, gaps }
+    });
+    let many_texture = (0u16..=200, prop::sample::select(vec![2040usize, 4050, 4070, 4096, 5040]), 0usize..3).prop_flat_map(move |(header_len, n, extra)| (Just(header_len), tiny(n), vec(blocks(1, 2), extra))).prop_map(|(header_len, first, rest)| {
+        let mut mips = vec![first];
+        mips.extend(rest);
+        Entry::Texture { header_len, mips }
+    });
+    let many_model = (prop::sample::select(vec![2040usize, 4090, 4100]), blocks(1, 2), blocks(1, 2), any::<u16>(), any::<u16>(), any::<bool>()).prop_flat_map(move |(n, stack, runtime, decl, material, which)| (tiny(n), Just((stack, runtime, decl, material, which)))).prop_map(|(many, (stack, runtime, decl, material, which))| {
+        let few: Vec<Blk> = vec![(64, Mode::Raw, 0)];
+        let lods = if which { vec![(many, few)] } else { vec![(few.clone(), many), (few.clone(), few)] };
+        Entry::Model { version: 0x0100_0005, stack, runtime, lods, decl, material, flags: (false, true) }
+    });
+    prop_oneof![500 => standard, 300 => texture, 300 => model, 2 => many_standard, 2 => many_texture, 1 => many_model].boxed()
 }
 
 fn strategy(ctx: &Ctx) -> BoxedStrategy<Case> {
@@ -352,7 +369,8 @@ fn prop(c: &Case, ctx: &Ctx) -> PResult {
         check_model(&out, m)?;
     }
     ctx.classf(format!("kind:{}", kind));
-    ctx.classf(format!("blocks:{}", match nblocks { 0 => "0", 1 => "1", 2..=4 => "2-4", 5..=16 => "5-16", _ => ">16" }));
+    ctx.classf(format!("blocks:{}", match nblocks { 0 => "0", 1 => "1", 2..=4 => "2-4", 5..=16 => "5-16", 17..=499 => "17-499", 500..=2046 => "500-2046", 2047..=4089 => "2047-4089", _ => ">=4090" }));
+    if nblocks >= 500 { ctx.classf(format!("many-blocks:{}", kind)); }
     ctx.classf(format!("size:{}", match out.len() { 0 => "0", 1..=1023 => "<1K", 1024..=65535 => "1K-64K", _ => ">=64K" }));
     ctx.classf(format!("dat{}", c.dat_id));
     if damaged_at.is_some() {
